@@ -218,11 +218,15 @@ reg("C17",
     "DESIGN.md §3 C17")
 
 reg("C18",
-    "TRANSLATOR + proof: the serde schema (structs, field names, types, order, every serde attribute, manual impls) is regenerated "
-    "from /repo/src on every run into Lean and `schema_matches` (kernel `decide`) equates it with the model's schema; for the derive "
-    "semantics decode(encode g) = some g for every sampler value, hence every observation (dimension, dod, table, samples) of the "
-    "restored sampler equals the original. Real round trips through serde_json text, serde_json::Value and ciborium on samplers with "
-    "negative / |.|>=2 signature entries and odd/even D L, 40/400 samples compared bit for bit; serialised key tree vs schema.",
+    "TRANSLATOR + proof: the serde schema (structs, ordered fields with parsed types, every serde attribute, manual impls) is regenerated "
+    "from /repo/src on every run into Lean as DATA. dec_enc: for EVERY schema, type and well-typed value the derive round trip "
+    "(struct = map of all fields by name in order, Vec = sequence, f64 = its bits) is the identity; generated_schema_ok (kernel `decide` "
+    "on the regenerated schema): only modelled field types, resolvable struct references, no serde attribute, no manual impl, root struct "
+    "present; hence roundtrip_generated / observation_after_roundtrip for the source as it is now (a reordered, renamed or added plain "
+    "field keeps everything true; skip/with/default/skip_serializing_if/manual impl/unmodelled type breaks the obligation); "
+    "default_inhabits: non-vacuity. Real round trips through serde_json text, serde_json::Value, ciborium and the harness's own value-tree "
+    "format with structs as maps and as sequences, on samplers with negative / |.|>=2 signature entries, odd/even D L, vacuum, disconnected, "
+    "8-edge graphs and table values beyond 2^63; 40/400 samples compared bit for bit; serialised key tree vs schema.",
     "serde derive semantics is the model assumption; the regex translator is in the trusted base.",
     "translator-regenerated Lean schema + Lean round-trip theorem + real round trips",
     "DESIGN.md §3 C18", category="proof")
